@@ -93,7 +93,9 @@ type Hist struct {
 	CoalesceMs int
 	CancelMs   int
 	CancelN    int
-	Handshake  int // 0: normal; 1: node never answers STARTUP; 2: node closes during the handshake; 3: cut mid-header of SUPPORTED
+	PushEvents bool // the node pushes EVENT frames (stream -1) on the pool connection while requests are outstanding
+	IdleMs     int  // stay idle this long before quiescence (> 1000: the heartbeat's OPTIONS exec appears in the logs)
+	Handshake  int  // 0: normal; 1: node never answers STARTUP; 2: node closes during the handshake; 3: cut mid-header of SUPPORTED
 }
 
 func (h *Hist) String() string {
@@ -113,6 +115,8 @@ type CallerResult struct {
 	Class string // ok | errframe | timeout | ctx | connclosed | nostreams | nohosts | readerr | writeerr | other
 	Seen  string // the token inside the response / error frame ("" if none)
 	Err   string
+	Num   int // the request number carried to exec in the context (index within the history + 1)
+	SeenN int // the request number inside Seen (-1: nothing seen, -2: not a token of this history)
 }
 
 type Report struct {
@@ -181,6 +185,22 @@ func (s *obsSet) totals() (started, ended int, anomalies []string) {
 const stmtPrefix = "TRUNCATE "
 
 func tokenOf(h, i int) string { return fmt.Sprintf("tok_%04d_%04d", h, i) }
+
+// numOf is the request number (index + 1) of token s if s is a token of the same history as own, else -2.
+func numOf(s, own string) int {
+	var h, i, ho, io int
+	if n, _ := fmt.Sscanf(own, "tok_%04d_%04d", &ho, &io); n != 2 {
+		return -2
+	}
+	if n, _ := fmt.Sscanf(s, "tok_%04d_%04d", &h, &i); n != 2 || h != ho || s != tokenOf(h, i) {
+		return -2
+	}
+	return i + 1
+}
+
+// ClassCode is the number of an outcome class in C01/Corr.v (result).
+var ClassCode = map[string]int{"ok": 0, "errframe": 1, "timeout": 2, "ctx": 3, "connclosed": 4, "nostreams": 5, "nohosts": 6,
+	"readerr": 7, "writeerr": 8, "other": 9, "ok-empty": 10}
 
 func rowsFor(tok string) node.Rows {
 	return node.Rows{Keyspace: "ks", Table: "t", GlobalSpec: true,
@@ -308,12 +328,17 @@ func classify(err error) string {
 }
 
 // one request through the public API
-func doQuery(s *gocql.Session, ctx context.Context, tok string) CallerResult {
-	res := CallerResult{Token: tok}
-	q := s.Query(stmtPrefix + tok)
-	if ctx != nil {
-		q = q.WithContext(ctx)
+func doQuery(s *gocql.Session, ctx context.Context, tok string) (res CallerResult) {
+	res = CallerResult{Token: tok, Num: numOf(tok, tok), SeenN: -1}
+	defer func() {
+		if res.Seen != "" {
+			res.SeenN = numOf(res.Seen, tok)
+		}
+	}()
+	if ctx == nil {
+		ctx = context.Background()
 	}
+	q := s.Query(stmtPrefix + tok).WithContext(gocql.VerifWithToken(ctx, res.Num))
 	iter := q.Iter()
 	var cell string
 	got := iter.Scan(&cell)
@@ -417,8 +442,22 @@ func Run(h *Hist) *Report {
 		}
 		rep.Note = "handshake failure: " + err.Error()
 		rep.NonTriv = true
-		rep.Traces = gocql.VerifConnTraces(nil, false)
-		rep.Traces = nil // connections of a failed NewSession have no session to be found by: not replayed
+		// the connections of the failed NewSession are found by the in-memory network they ran over; their
+		// logs (startup coordinator's own receive loop, exec of OPTIONS/STARTUP, the closing) are replayed too
+		time.Sleep(20 * time.Millisecond)
+		rep.Traces = gocql.VerifConnTracesOf(func(c *gocql.Conn) bool {
+			nc := gocql.VerifConnNetConn(c)
+			for _, l := range n.Links() {
+				if l.Client() == nc {
+					return true
+				}
+			}
+			return false
+		}, true)
+		for range rep.Traces {
+			rep.Final = append(rep.Final, -1)
+			rep.PrefixLen = append(rep.PrefixLen, -1)
+		}
 		return rep
 	}
 	for attempt := 0; attempt < 3; attempt++ {
@@ -468,6 +507,10 @@ func Run(h *Hist) *Report {
 		r.coalCancelScenario(s, pool, rep, viol)
 	} else {
 		r.waves(s, pool, poolConn, rep, viol, closeSession)
+	}
+
+	if h.IdleMs > 0 && !sessionClosed {
+		time.Sleep(time.Duration(h.IdleMs) * time.Millisecond)
 	}
 
 	// ---- quiescence --------------------------------------------------------------------------
